@@ -685,12 +685,16 @@ Theorem cast_scalar_complex_refused t :
   cast_scalar VTInt (VCpx t) = Refuse ECast /\ cast_scalar VTFloat (VCpx t) = Refuse ECast.
 Proof. split; reflexivity. Qed.
 
-(* the only refusal of a scalar cast is complex -> int / float *)
+(* the only refusals of a scalar cast are complex -> int / float and the bare type "array" *)
 Theorem cast_scalar_refuse_inv ty v c :
-  cast_scalar ty v = Refuse c -> c = ECast /\ (ty = VTInt \/ ty = VTFloat) /\ exists t, v = VCpx t.
+  cast_scalar ty v = Refuse c -> c = ECast /\ (ty = VTArray \/ ((ty = VTInt \/ ty = VTFloat) /\ exists t, v = VCpx t)).
 Proof.
-  destruct ty, v; simpl; intros H; try discriminate; injection H as <-; (split; [reflexivity|split; [auto|eauto]]).
+  destruct ty, v; simpl; intros H; try discriminate; injection H as <-;
+    (split; [reflexivity| first [left; reflexivity | right; split; [auto|eauto]]]).
 Qed.
+
+Theorem cast_scalar_array_refused v : (forall t, v <> VSym t) -> cast_scalar VTArray v = Refuse ECast.
+Proof. destruct v; simpl; intros H; try reflexivity. exfalso; eapply H; reflexivity. Qed.
 
 Theorem cast_loop_kind ty v v' : cast_loop ty v = Ok v' -> has_type ty v'.
 Proof.
@@ -1308,6 +1312,7 @@ Print Assumptions cast_scalar_kind.
 Print Assumptions cast_scalar_value.
 Print Assumptions cast_scalar_complex_refused.
 Print Assumptions cast_scalar_refuse_inv.
+Print Assumptions cast_scalar_array_refused.
 Print Assumptions cast_loop_kind.
 Print Assumptions cast_loop_refuses.
 Print Assumptions cast_loop_refuse_inv.
